@@ -137,12 +137,22 @@ theorem depfile_parse_total (text : Bytes) : match Depfile.parse text with
     any blank space (spaces, blank lines) before, between and after entries — `depfile::parse`
     returns exactly the listed targets with exactly the listed prerequisites, in order.  With
     `flatten_distinct` / `flatten_complete` above: the discovered dependencies are exactly the
-    listed prerequisites of all targets.  (A last line without final newline, and CR LF line
-    ends, are covered by the correspondence run only.) -/
+    listed prerequisites of all targets.  (A last line without final newline is the next theorem;
+    CR LF line ends are covered by the correspondence run only.) -/
 theorem parse_reads_what_was_written (es : List FEntry) (hwf : ∀ e ∈ es, EntryWF e) (eb : Bytes)
     (heb : blankOk eb) :
     ∃ s, parse (bodyBytes es eb) = .ok (record (entriesOf es)) s :=
   parse_spec es hwf eb heb
+
+/-- ... and the same when the file ends right after the last entry, without a final newline
+    (`out: a b` + EOF): that entry is read like the others. -/
+theorem parse_reads_last_line_without_newline (es : List FEntry) (hwf : ∀ e ∈ es, EntryWF e) (last : FEntry)
+    (hl : EntryWF last) :
+    ∃ s, parse (bodyBytes es (last.blank ++ entryCore last)) = .ok (record (entriesOf (es ++ [last]))) s := by
+  obtain ⟨s, h⟩ := parse_spec_no_final_newline es hwf last hl
+  refine ⟨s, ?_⟩
+  rw [h]
+  simp [record, entriesOf, List.foldl_append]
 
 /-- Non-vacuity: `a.o: a.c \\\n  b.h\n\nc: d\n` as an instance of the format. -/
 example : bodyBytes
